@@ -358,6 +358,8 @@ def check_C12(tier: str, v: Verdict):
     v.cov["undefined_label_inputs"] = sum(1 for r in recs if r["out"] == "raise")
     _sample(v, recs)
     validate_traces(v, "Trace_Eval", ["T_UndefinedRejected"] + BASE + REL, recs, site_rel, what_fn=what_rel)
+    from .extras import extra_groups
+    extra_groups(v, tier)
     v.assumptions += ["TLC, CommunityModules"]
 
 
